@@ -282,8 +282,26 @@ impl Property for C20 {
                 prop::collection::vec(prop::array::uniform4(any::<u64>()), 1..4),
                 prop_oneof![3 => prop::sample::select(J_VALUES.to_vec()), 1 => any::<u32>()],
                 prop::bool::weighted(0.3),
+                0u8..10,
+                any::<u64>(),
             )
-                .prop_map(|(a, b, seeds, j, same)| Case::Bin { a, b, seeds, j, same })
+                .prop_map(|(a, mut b, seeds, j, same, mode, d)| {
+                    // pairs that are equal / different in exactly one component, through one or two representations
+                    // (x ^ (z^127 + z^63 + 1) is the same element of GF(2^127) written with bit 127 set)
+                    let d = d | 1;
+                    match mode {
+                        2 => { b = a; b[0] ^= d; }                       // differ in the low limb of x0 only
+                        3 => { b = a; b[1] ^= d >> 1 | 1; }              // differ in the high limb of x0 only
+                        4 => { b = a; b[2] ^= d; }                       // differ in x1 only
+                        5 => { b = a; b[3] ^= d >> 1 | 1; }
+                        6 => { b = a; b[0] ^= (1 << 63) | 1; b[1] ^= 1 << 63; }   // same element, other representation of x0
+                        7 => { b = a; b[2] ^= (1 << 63) | 1; b[3] ^= 1 << 63; }   // same element, other representation of x1
+                        8 => { b = a; b[2] = 0; b[3] = 0; }              // b in the subfield (x1 = 0), equal to a in x0
+                        9 => { b = a; b[0] = 0; b[1] = 0; }              // x0 = 0, equal to a in x1
+                        _ => {}
+                    }
+                    Case::Bin { a, b, seeds, j, same: same && mode < 2 }
+                })
                 .boxed(),
             Kind::Point(g) => crate::points::sel_strategy(g).prop_map(Case::Point).boxed(),
         }
